@@ -40,10 +40,37 @@ def l2t_obj(o):
     return _L2T[o]
 
 
+def relabel(items, counter=None):
+    """Give every text item its own letter (a, b, c, ...) so that a rendering which repeats or swaps
+    arguments of different occurrences is visible."""
+    if counter is None:
+        counter = [0]
+    out = []
+    for it in items:
+        if it[0] == 'T':
+            out.append(('T', 'abcdfghijk'[counter[0] % 10]))
+            counter[0] += 1
+        elif it[0] in ('G', 'NB'):
+            out.append((it[0], relabel(it[1], counter)))
+        elif it[0] == 'Math':
+            out.append(('Math', it[1], relabel(it[2], counter)))
+        elif it[0] in ('Call', 'Env'):
+            vals = tuple((v[:-1] + (relabel(v[-1], counter),)) if (isinstance(v, tuple) and v and v[0] in ('grp', 'opt', 'del')) else v
+                         for v in it[2])
+            if it[0] == 'Call':
+                out.append(('Call', it[1], vals))
+            else:
+                out.append(('Env', it[1], vals, relabel(it[3], counter)))
+        else:
+            out.append(it)
+    return tuple(out)
+
+
 def iter_docs(tier, shard):
     pi, k = shard
     p = PROFILES[tier][pi]
     for items in docgen.iter_doc_slice(p, k):
+        items = relabel(items)
         base = docgen.render(items, 'C')
         for dv in docgen.deviation_vectors(base.nb, p['d']):
             d = base if not dv else docgen.render(items, 'C', dv)
